@@ -42,6 +42,8 @@ PAIRS = [("W_g", "Wla_g_q"), ("W_c", "Wla_c_q"), ("W_N", "Wla_N_q")]
 
 def run(ctx):
     rep = ctx.rep
+    rep.rule("C23.R12", "Riks: the load level stored with a returned point is the one the point was SOLVED at (the last entry of the solution vector, unmodified): no clipping / rounding between the solve and the append to the returned load levels", 1)
+    stored_load_level(ctx)
     rep.rule("C23.R11", "static solvers evaluate every force at ZERO velocity: the velocity argument they hand to the system is a zero buffer of their own (np.zeros(system.nu)), not the model's initial velocity or any other state", 2)
     static_velocity_zero(ctx)
     rep.rule("C23.R10", "frame indifference of the applied loads: a load datum given in the I-basis (Force, Moment) or the body basis (B_Force, B_Moment) is contracted with a Jacobian of the same basis, changing basis with A_IB in the right direction (A_IB @ B-vector, I-vector @ A_IB)", 4)
@@ -181,6 +183,46 @@ def _resolve_ranges(fn, expr, depth=0):
                 out += r
         return out or None
     return None
+
+
+def stored_load_level(ctx, rule="C23.R12"):
+    """The arc-length loop always ends on a converged point whose load parameter lies OUTSIDE the span.  Returned with its true level it is an
+    equilibrium; relabelled with the span bound (np.clip for the progress bar, reused for the stored level) its state belongs to another load
+    and the equilibrium rows are violated by overshoot * |dh/dt|."""
+    from ..cfg import CFG
+    from ..dataflow import ReachingDefs
+    rep = ctx.rep
+    rel = "cardillo/solver/statics.py"
+    fn = ctx.repo.maybe(rel, "Riks.solve")
+    C = f"{rel}:Riks.solve"
+    if fn is None:
+        rep.ok(rule, C, "Riks.solve not found (no verdict)", verdict="unknown", trivial=True)
+        return
+    cfg = CFG(fn)
+    rd = ReachingDefs(cfg)
+    apps = [n for n in cfg.nodes if n.kind == "stmt" and isinstance(n.ast, ast.Expr) and isinstance(n.ast.value, ast.Call) and isinstance(n.ast.value.func, ast.Attribute)
+            and n.ast.value.func.attr == "append" and norm_src(n.ast.value.func.value) == "la_arc" and n.ast.value.args]
+    if not apps:
+        rep.ok(rule, C, "no `la_arc.append(...)` found (no verdict)", verdict="unknown", trivial=True)
+        return
+    LOSSY = {"clip", "minimum", "maximum", "min", "max", "round", "around", "floor", "ceil"}
+    for ap in apps:
+        names = {w.id for w in ast.walk(ap.ast.value.args[0]) if isinstance(w, ast.Name)}
+        bad = None
+        for nm in names:
+            for d in rd.defs_reaching(ap, nm):
+                if d.ast is None or not isinstance(d.ast, ast.Assign):
+                    continue
+                for c in ast.walk(d.ast.value):
+                    if isinstance(c, ast.Call) and (dotted(c.func) or "").split(".")[-1] in LOSSY:
+                        bad = (d, c)
+        if bad:
+            d, c = bad
+            rep.bad(rule, C, d.ast, f"`{norm_src(ap.ast)}` stores a load level that went through `{norm_src(c)[:60]}`: the last point of a complete run (which always overshoots the span) is returned "
+                    "with the span bound as its load while its state is the equilibrium of the overshot load - the equilibrium rows are violated at that point, with full success reported",
+                    f"{rel}:{d.lineno}")
+        else:
+            rep.ok(rule, C, f"`{norm_src(ap.ast)}`: the level of the solution vector, unmodified")
 
 
 def static_velocity_zero(ctx, rule="C23.R11"):
@@ -673,4 +715,9 @@ NEUTRAL += [
 MUTANTS += [
     dict(id="c23-r11-seed", canary=True, what="[seeded by sub-agent] Newton evaluates the system with system.u0 instead of a zero velocity vector", file='cardillo/solver/statics.py',
          old="        self.u0 = np.zeros(system.nu)  # zero velocities as system is static\n", new="        self.u0 = system.u0\n", expect="C23.R11"),
+]
+
+MUTANTS += [
+    dict(id="c23-r12-seed", canary=True, what="[seeded by sub-agent] Riks clips the load level of the converged point to la_arc_span 'for the progress bar' and stores the clipped value", file='cardillo/solver/statics.py',
+         old='            la_arc.append(la_arc_[0])\n', new='            la_arc_ = np.clip(la_arc_, self.la_arc_span[0], self.la_arc_span[1])\n            la_arc.append(la_arc_[0])\n', expect="C23.R12"),
 ]
